@@ -650,6 +650,12 @@ def cdb_corrupt_sites(db, rep):
         ('slot count larger than the table', hdr(good, b'solo', ln=7), b'solo', None),
         ('empty file', b'', b'solo', -1),
     ]
+    # keys whose length sits on the boundaries of the 32-byte comparison buffer: each found, and not found with its last byte changed
+    edge = [bytes(65 + ((i * 7 + n_) % 26) for i in range(n_)) for n_ in (1, 31, 32, 33, 63, 64, 65)]
+    edge_img = _c11._cdb_image([(k_, b'D%d' % len(k_)) for k_ in edge])
+    for k_ in edge:
+        images.append(('%d-byte key' % len(k_), edge_img, k_, 1))
+        images.append(('%d-byte key, last byte changed' % len(k_), edge_img, k_[:-1] + b'#', 0))
     for k_ in (0, 31, 32, 33, 63, 64, 69):
         # the slot carries the hash of the key searched for, the record it points to holds a key that differs in byte k_
         images.append(('stored key differs in byte %d' % k_, good[:2056 + k_] + b'#' + good[2057 + k_:], long_a, 0))
